@@ -2,6 +2,8 @@
 
 from __future__ import annotations
 
+from mc.callers import LiveMapping  # noqa: E402
+
 from checks.common import *  # noqa: F401,F403
 from checks.common import Case, Fails, close, REL_D, size, FOREIGN, np
 
@@ -112,13 +114,14 @@ def check_recipe(r, tier, seed, rep=None, want=None):
                 rep.transitions += 1
                 rep.outcomes[f"{path}:derivative-is-{type(ge).__name__}"] += 1
             foreign = var.name == FOREIGN
+            ev_ = LiveMapping(ge.evaluate)
             for k in (okidx if foreign else idx):
                 pd = c.point(k)
                 pd.setdefault(FOREIGN, 0.125)
                 if rep:
                     rep.evaluations += 1
                 try:
-                    got = float(np.asarray(ge.evaluate(pd)).reshape(-1)[0])
+                    got = float(np.asarray(ev_(pd)).reshape(-1)[0])
                 except Exception as ex:
                     fails.add(f"exception:evaluate-gradient:{path}:" + type(ex).__name__, wrt=var.name, point=pd,
                               msg=str(ex)[:200])
